@@ -105,6 +105,9 @@ class FileHeaderRule(BaseLintRule):  # thailint: ignore[srp]
 
         config = self._load_config(context)
 
+        if not config.enabled:
+            return []
+
         if self._should_ignore_file(context, config):
             return []
 
